@@ -27,7 +27,7 @@ fn scenario(words: &[u16]) -> Scenario {
     cfg.unsafe_vrps = d.pick(&[0u8, 0, 1, 2]);
     cfg.stale = 0;
     cfg.threads = d.pick(&[2usize, 1, 8]);
-    let p = Profile { max_cas: 5, max_tals: 1, max_objs: 2, versions: 1, fault_16: 0, obj_faults: false, cert_faults: false, pp_faults: false, vary_cfg: false, modules: 2 };
+    let p = Profile { max_cas: 5, max_tals: 1, max_objs: 2, versions: 1, fault_16: 0, obj_faults: false, cert_faults: false, pp_faults: false, vary_cfg: false, modules: 2, rrdp_16: 0, rrdp_repos: 2 };
     // A's blocks inside 10.200.0.0/14 and 2001:db8:c800::/38
     let slash_zero = d.chance(2, 16);
     let mut a_res = Res { v4: vec![], v6: vec![], asn: vec![] };
@@ -99,20 +99,20 @@ fn scenario(words: &[u16]) -> Scenario {
     let roa_a = Obj { kind: ObjKind::Roa { extra: 1, maxlen_delta: 0, v6: false }, not_after: 86400 * 30, fault: None };
     let mut cas = Vec::new();
     let ta_extra = if slash_zero { Some(Res { v4: vec![(Ipv4Addr::new(0, 0, 0, 0), 0)], v6: vec![(Ipv6Addr::from(0u128), 0)], asn: vec![] }) } else { None };
-    cas.push(Ca { parent: None, key: 0, module: 0, not_after: 86400 * 365, cert_fault: None, versions: vec![mk_ver(&mut d, vec![roa_a.clone()], None)], extra_res: ta_extra, ta_alt: vec![], sia_under_parent_mft: false });
+    cas.push(Ca { parent: None, key: 0, module: 0, not_after: 86400 * 365, cert_fault: None, versions: vec![mk_ver(&mut d, vec![roa_a.clone()], None)], extra_res: ta_extra, ta_alt: vec![], sia_under_parent_mft: false, rrdp: None });
     let mut a_ver = mk_ver(&mut d, vec![roa_a.clone(), roa_a.clone()], reject_fault);
     if stale_reject {
         a_ver.fault = None;
         a_ver.next_off = -3600;
     }
-    cas.push(Ca { parent: Some(0), key: 1, module: d.below(2), not_after: 86400 * 365, cert_fault: None, versions: vec![a_ver], extra_res: Some(a_res), ta_alt: vec![], sia_under_parent_mft: false });
+    cas.push(Ca { parent: Some(0), key: 1, module: d.below(2), not_after: 86400 * 365, cert_fault: None, versions: vec![a_ver], extra_res: Some(a_res), ta_alt: vec![], sia_under_parent_mft: false, rrdp: None });
     let b_objs = vec![Obj { kind: ObjKind::RoaRaw { asn: 64999, prefixes }, not_after: 86400 * 30, fault: None }, roa_a.clone()];
-    cas.push(Ca { parent: Some(0), key: 2, module: d.below(2), not_after: 86400 * 365, cert_fault: None, versions: vec![mk_ver(&mut d, b_objs, None)], extra_res: Some(b_res), ta_alt: vec![], sia_under_parent_mft: false });
+    cas.push(Ca { parent: Some(0), key: 2, module: d.below(2), not_after: 86400 * 365, cert_fault: None, versions: vec![mk_ver(&mut d, b_objs, None)], extra_res: Some(b_res), ta_alt: vec![], sia_under_parent_mft: false, rrdp: None });
     if d.chance(1, 2) {
         // a descendant of A: its resources are part of A's certificate, it contributes nothing when A is rejected
-        cas.push(Ca { parent: Some(1), key: 3, module: 0, not_after: 86400 * 365, cert_fault: None, versions: vec![mk_ver(&mut d, vec![roa_a.clone()], None)], extra_res: None, ta_alt: vec![], sia_under_parent_mft: false });
+        cas.push(Ca { parent: Some(1), key: 3, module: 0, not_after: 86400 * 365, cert_fault: None, versions: vec![mk_ver(&mut d, vec![roa_a.clone()], None)], extra_res: None, ta_alt: vec![], sia_under_parent_mft: false, rrdp: None });
     }
-    let steps = vec![Step { publish: vec![0; cas.len()], fail_modules: vec![], offline: false, stale: None, foreign_tal_key: vec![], ta_serve: vec![] }];
+    let steps = vec![Step { publish: vec![0; cas.len()], fail_modules: vec![], offline: false, stale: None, foreign_tal_key: vec![], ta_serve: vec![], fail_rrdp: vec![] }];
     Scenario { cfg, cas, steps }
 }
 
